@@ -283,6 +283,16 @@ func (s *Sys) Apply(e Ev) []Fail {
 			// acknowledged although the key is missing: whatever is stored now is outside the model
 			delete(s.Ref, key)
 		}
+	case "expire0":
+		// Expire with a zero timeout: no statement fixes what it means for the key's expiry, so the
+		// key leaves the reference model; the white-box oracles (C04: backups mirror the primary)
+		// apply to whatever it did
+		l := s.live(key)
+		r := s.KV.Expire(key, 0)
+		s.LastRes = r
+		if l != nil || r.Err == "" {
+			s.Untracked[key] = true
+		}
 	case "getput":
 		l := s.live(key)
 		val := []byte("120")
@@ -435,6 +445,8 @@ func (s *Sys) applyUntracked(e Ev, key string) []Fail {
 		}
 	case "expire":
 		s.KV.Expire(key, durExpire)
+	case "expire0":
+		s.KV.Expire(key, 0)
 	case "incr":
 		s.KV.Incr(key, e.B)
 	case "decr":
